@@ -75,7 +75,7 @@ func try(args []string) {
 		if os.Getenv("KEYS") != "" {
 			for _, k := range blk.Cur.Keys() {
 				if pv, ok := blk.Prev[k]; !ok || string(pv) != string(blk.Cur[k]) {
-					fmt.Printf("      %q = %s\n", k, cut(string(blk.Cur[k]), 300))
+					fmt.Printf("      %q = %s\n", k, cut(string(blk.Cur[k]), 3000))
 				}
 			}
 			for _, k := range blk.Prev.Keys() {
